@@ -64,13 +64,15 @@ PART["C11"] = {
 PART["C12"] = {
     "runs": [{"name": "streams-stall", "pkg": P, "run": "^TestVF_C12_Stall", "timeout": "30m", "timeout_thorough": "90m"},
              {"name": "beaconnet-flood", "pkg": P, "run": "^TestVF_C12_Flood", "timeout": "30m", "timeout_thorough": "90m"},
-             {"name": "streams-stall-replaced", "pkg": P, "run": "^TestVF_C12_Replaced", "timeout": "20m", "timeout_thorough": "60m"}],
+             {"name": "streams-stall-replaced", "pkg": P, "run": "^TestVF_C12_Replaced", "timeout": "20m", "timeout_thorough": "60m"},
+             {"name": "beaconnet-cache-books", "pkg": P, "run": "^TestVF_C12_CacheBooks", "timeout": "20m", "timeout_thorough": "60m"}],
     "rule": "(a) real callbackStore stack + real SyncChain with 1 or 3 consumers that stop reading after the catch-up phase or inside the catch-up scan (never read / read late / disconnect) plus one healthy consumer, "
             "10*CallbackWorkerQueue appends; verdict 'blocked' only from a goroutine dump showing the parked Put frame; (b) a real Handler flooded through ProcessPartialBeacon with valid partials of 1-2 corrupted "
             "members for 1200 (quick) / 5000 (thorough) distinct (round, previous signature) pairs inside the acceptance window, cache sizes read by hook aggregator.cache in the aggregator goroutine "
             "(plateau and <= 3*MaxPartialsPerNode per flooder), then the threshold-th honest partial must still complete the round; (c) a stream parked in a live Send nobody reads (0, 1, 3 or half a queue of "
             "beacons waiting behind it) is replaced by a reconnect from the same address while an unrelated client connects: the next Puts must return and both clients must be served up to the head "
-            "(blocked only from the parked state of the appending goroutine in a dump). distinct = distinct case parameters",
+            "(blocked only from the parked state of the appending goroutine in a dump), and consumers that come and go must leave no callback registered; (d) honest networks under the W1 fault scripts "
+            "(no flood, nothing evicted): at every firing of hook aggregator.cache each id in a signer's list of contributed round caches must name a round cache that still exists. distinct = distinct case parameters",
     "assumptions": ["a Put that has not returned for 8 s with its goroutine parked on a channel send / mutex is blocked (typical Put latency is < 1 ms)"],
     "race_anchors": ["callbackStore", "partialCache"],
 }
